@@ -77,8 +77,8 @@ Show(v) ==
 
 \* Three-way comparison of two values of the same type: -1, 0, 1.
 \* (Strings never need ordering in this fragment: only equality.)
-\* the characters that occur in modelled strings, in ASCII order
-Ascii == <<" ", "!", "(", ")", ",", "-", "0", "1", "2", "3", "4", "5", "6", "7", "8", "9", "<", ">", "?",
+\* the characters that occur in modelled strings, in ASCII order ("NUL" is the byte 0: one element, written \x00)
+Ascii == <<"NUL", " ", "!", "(", ")", ",", "-", "0", "1", "2", "3", "4", "5", "6", "7", "8", "9", "<", ">", "?",
            "[", "]", "a", "b", "c", "d", "e", "f", "g", "h", "i", "j", "k", "l", "m", "n", "o", "p", "q",
            "r", "s", "t", "u", "v", "w", "x", "y", "z">>
 CharCode(c) == CHOOSE i \in 1..Len(Ascii) : Ascii[i] = c
